@@ -85,6 +85,8 @@ FUNCS = [
     ("rtrlib/rtr/packets.c", "rtr_pdu_header_to_network_byte_order", {"mem": ["pdu"], "writes": True}),
     ("rtrlib/rtr/packets.c", "rtr_receive_pdu", {"xworld": "struct rtr_socket", "mem": ["pdu"], "writes": True, "memlocals": ["header"],
                                                   "opaque": ["txt"]}),
+    ("rtrlib/rtr/packets.c", "rtr_send_error_pdu", {"xworld": "struct rtr_socket", "mem": ["erroneous_pdu", "err_text"], "writes": True,
+                                                     "memlocals": ["msg"], "externs": {"rtr_send_pdu": {"ret": True, "recmem": (1, 2), "args": [2]}}}),
     ("rtrlib/rtr/packets.c", "rtr_set_last_update", {"xworld": "struct rtr_socket"}),
     ("rtrlib/rtr/packets.c", "rtr_handle_error_pdu", {"xworld": "struct rtr_socket", "mem": ["buf"]}),
     ("rtrlib/rtr/packets.c", "rtr_handle_cache_response_pdu", {"xworld": "struct rtr_socket", "mem": ["pdu"]}),
@@ -718,6 +720,11 @@ class Fn:
                 bad("parameter '%s' of unsupported type" % name, p)
             self.params.append((name, ty, mode))
             self.vars[name] = {"ty": ty, "mode": mode}
+            if mode == "mem":
+                nmem = sum(1 for _, _, m in self.params if m == "mem")
+                if nmem > 1:
+                    # a second buffer parameter is an object of its own: its end is a parameter, too
+                    self.vars[name]["bound"] = lname(name + "_end")
 
     def sig(self):
         ps = []
@@ -728,6 +735,8 @@ class Fn:
         for name, ty, mode in self.params:
             if mode == "mem":
                 ps.append("(%s : Nat)" % self.ln(name))
+                if self.vars[name].get("bound"):
+                    ps.append("(%s : Nat)" % self.vars[name]["bound"])
             elif mode in ("value", "inout"):
                 ps.append("(%s : %s)" % (self.ln(name), struct_lean_name(ty.elem.name)))
             else:
@@ -1381,7 +1390,7 @@ class Fn:
 
     def emit_xextern(self, n, env, k):
         name = self.callee_name(n)
-        spec = EXTERNX[name]
+        spec = self.root.opts.get("externs", {}).get(name, EXTERNX[name])
         args = n["inner"][1:]
         gs, rec = [], []
         for idx in spec.get("args", []):
@@ -1427,6 +1436,13 @@ class Fn:
             gs += pv.guards + ["(decide (%s + %d ≤ %s))" % (pv.text, ln_.const, bound_of(pv))]
             for i in range(ln_.const):
                 rec.append("(BitVec.setWidth 64 (C.load8 mem (%s + %d)))" % (pv.text, i))
+        recdyn = None
+        if "recmem" in spec:
+            pv = self.expr(args[spec["recmem"][0]], env)
+            ln_ = self.as_int(self.expr(args[spec["recmem"][1]], env), Ty("int", 64, False))
+            cnt = str(ln_.const) if ln_.const is not None else dot(ln_.text, "toNat")
+            gs += pv.guards + ln_.guards + ["(decide (%s + %s ≤ %s))" % (pv.text, cnt, bound_of(pv))]
+            recdyn = "C.bytesAt mem %s %s" % (pv.text, cnt)
         if "outbuf" in spec:
             if not self.uses_mem:
                 bad("'%s' fills a buffer but the function has no memory object" % name, n)
@@ -1473,7 +1489,8 @@ class Fn:
         if "outbuf" in spec or "fill" in spec:
             call = 'C.xcallBuf w "%s" [%s] %s' % (name, ", ".join(rec), self.ln(sv))
             return self.guarded(gs, "match %s with\n| (rc_, aux_, st_, buf_, w) =>\n%s" % (call, indent(body, 2)))
-        call = 'C.xcall w "%s" [%s] %s' % (name, ", ".join(rec), self.ln(sv))
+        argl = "[%s]" % ", ".join(rec) if recdyn is None else "([%s] ++ %s)" % (", ".join(rec), recdyn)
+        call = 'C.xcall w "%s" %s %s' % (name, argl, self.ln(sv))
         return self.guarded(gs, "match %s with\n| (rc_, aux_, st_, w) =>\n%s" % (call, indent(body, 2)))
 
     def inlinable(self, name):
@@ -1535,6 +1552,8 @@ class Fn:
                     v = self.as_bool(v)
                 texts.append(v.text)
                 gs += v.guards
+                if pmode == "mem" and callee.vars[pname].get("bound"):
+                    texts.append(bound_of(v))
         tmp = self.fresh("r")
         pats = []
         if callee.ret.kind != "void":
@@ -1719,7 +1738,13 @@ class Fn:
                 if j == len(decls):
                     return nxt(env)
                 d = decls[j]
-                ty = parse_type(d["type"])
+                try:
+                    ty = parse_type(d["type"])
+                except Untranslatable:
+                    if re.match(r"^(?:const\s+)?(?:uint8_t|char|unsigned char)\s*\[[A-Za-z_][A-Za-z0-9_]*\]$", d["type"]["qualType"].strip()):
+                        ty = Ty("array", elem=Ty("int", 8, False), n=0)
+                    else:
+                        raise
                 name = d["name"]
                 if ty.kind == "array" and ty.elem.kind == "int" and ty.elem.bits == 8 and ty.n > 0 and self.root.opts.get("localbuf") == name:
                     # the receive buffer: the one memory object of this function (contents unspecified until a callee fills it;
@@ -1733,6 +1758,20 @@ class Fn:
                     env2["defined"].add(name)
                     return ("let mem : Nat → BitVec 8 := fun _ => 0#8\nlet msize : Nat := %d\nlet %s : Nat := 0\n%s"
                             % (ty.n, self.ln(name), go(j + 1, env2)))
+                vla = re.match(r"^(?:const\s+)?(?:uint8_t|char|unsigned char)\s*\[([A-Za-z_][A-Za-z0-9_]*)\]$", d["type"]["qualType"].strip())
+                if vla and vla.group(1) in self.vars and self.uses_mem and name in self.root.memlocals:
+                    # a variable-length byte array: an object in memory whose size is the value of an integer variable
+                    nv = self.expr({"kind": "DeclRefExpr", "referencedDecl": {"name": vla.group(1), "kind": "VarDecl"}, "type": {"qualType": "x"}}, env)
+                    if nv.ty.kind != "int":
+                        bad("size of the variable-length array is not an integer", d)
+                    self.root.nstack = getattr(self.root, "nstack", 0) + 1
+                    base = "(C.STACK + %d)" % (1048576 * self.root.nstack)
+                    cnt = str(nv.const) if nv.const is not None else dot(nv.text, "toNat")
+                    et = Ty("int", 8, False)
+                    self.vars[name] = {"ty": Ty("ptr", elem=Ty("array", elem=et, n=0)), "mode": "memobj", "base": base,
+                                       "objty": Ty("array", elem=et, n=0), "bound": "(C.STACK + %d + %s)" % (1048576 * self.root.nstack, cnt)}
+                    # the array must fit into its page and have a positive size (a zero-length VLA is undefined)
+                    return self.guarded(nv.guards + ["(decide (0 < %s ∧ %s ≤ 1048576))" % (cnt, cnt)], go(j + 1, env))
                 if self.uses_mem and name in self.root.memlocals and ty.kind in ("struct", "array"):
                     # an object whose address is taken: it lives in memory, at an address of its own beyond every buffer
                     if [c for c in d.get("inner", []) if "kind" in c and not c["kind"].endswith("Attr")]:
@@ -2025,8 +2064,8 @@ class Fn:
             env3.setdefault("consts", {}).pop(name, None)
             if ty.kind == "int" and v.const is not None and self.vars[name]["mode"] == "local":
                 env3["consts"][name] = v.const
-            if ty.kind == "ptr" and getattr(v, "bound", None) and not self.vars[name].get("bound"):
-                self.vars[name]["bound"] = v.bound
+            if ty.kind == "ptr" and v.text != "C.NULL":
+                self.note_bound(name, v, rhs)
             tytxt = "Nat" if ty.kind == "ptr" else ty.lean()
             return self.guarded(v.guards, "let %s : %s := %s\n%s" % (self.ln(name), tytxt, v.text, nxt(env3)))
         return self.with_calls([rhs], env, fin)
@@ -2062,6 +2101,8 @@ class Fn:
             env3 = copy_env(env2)
             env3["defined"].add(self.path_key(p))
             env3.setdefault("consts", {}).pop(p["root"], None)
+            if not p["steps"] and self.vars[p["root"]]["ty"].kind == "ptr" and self.vars[p["root"]]["mode"] == "local" and v.text != "C.NULL":
+                self.note_bound(p["root"], v, rhs)
             if (not p["steps"] and p["ty"].kind == "int" and v.const is not None and self.vars[p["root"]]["mode"] == "local"):
                 env3["consts"][p["root"]] = v.const
             root = p["root"]
@@ -2086,6 +2127,16 @@ class Fn:
             gs = list(gs) + list(v.guards) + ["(decide (%s + %d ≤ %s))" % (addr, w, bnd)]
             return self.guarded(gs, "let mem : Nat → BitVec 8 := C.store%d mem %s %s\n%s" % (ty.bits, addr, v.text, nxt(env2)))
         return self.with_calls([lhs, rhs], env, fin)
+
+    def note_bound(self, name, v, node):
+        """a pointer local points into one object for its whole life (the bound of its accesses is that object's)"""
+        b = bound_of(v)
+        cur = self.vars[name].get("bound")
+        if cur is None and not self.vars[name].get("bound_set"):
+            self.vars[name]["bound"] = None if b == "msize" else b
+            self.vars[name]["bound_set"] = b
+        elif self.vars[name].get("bound_set") != b:
+            bad("pointer local '%s' is assigned pointers into different objects" % name, node)
 
     def binary_vals(self, fake, a, b, ty):
         """arithmetic on already translated operands (compound assignment)"""
